@@ -301,6 +301,10 @@ func runSched(c jobCase) {
 		// reference process: every instance alone, nothing else has happened in this process but earlier solo runs
 		base := make([][]string, n)
 		for i, is := range ss.Insts {
+			// two collections empty every sync.Pool: a solo run must not even see what an earlier solo run (for instance one
+			// with a failing destination) left behind in this reference process
+			runtime.GC()
+			runtime.GC()
 			base[i] = digestsOf(is, runInst(is, files[i], i+1, nil))
 		}
 		emit(event{"ev": "Baseline", "digests": base})
